@@ -53,7 +53,10 @@ TOOLS = [("ovniemu", "ovniemu", ["-l"]),
          ("ovnisort", "ovnisort", []),
          # the emulator with debug output: every event goes through the dbg() formatting as well
          # (run on every third input)
-         ("ovniemu-d", "ovniemu", ["-d"])]
+         ("ovniemu-d", "ovniemu", ["-d"]),
+         # ovnisort with a look-back ring of 4 entries (the default holds a million): the ring wraps around on
+         # every stream of more than a few events (run on the inputs that go to ovnisort, every other one)
+         ("ovnisort-n4", "ovnisort", ["-n", "4"])]
 T_SHORT = 2.0          # first pass
 T_LONG = 10.0          # confirmation of a hang
 INVS = ["CursorInBounds", "Progress", "HeaderReadInBounds", "ReadsWithinEvent",
@@ -962,7 +965,7 @@ def run_case(bdir, inp, tool, timeout, keep=None):
         res = run_tool(bdir, exe, args + [td], timeout)
         cls = classify(res)
         art = 0
-        if cls and tn == "ovnisort" and any(f in cls[1] for f in _AFTER_REWRITE):
+        if cls and tn in ("ovnisort", "ovnisort-n4") and any(f in cls[1] for f in _AFTER_REWRITE):
             shutil.rmtree(td, ignore_errors=True)
             write_files(td, inp.files)
             res2 = run_tool(bdir, exe, args + [td], timeout, heapbuf=False)
@@ -1072,14 +1075,19 @@ def main(pid, tier):
 
     sd = seeds()
     # the seeds must be clean on every tool, otherwise nothing below means anything
+    inputs = []
     for n, s in sd:
         inp = Inp("seed", "unchanged", n, seed_files(s), nontrivial=False)
         for tool in TOOLS:
             res, cls, _ = run_case(bdir, inp, tool, T_LONG)
-            if res.rc != 0 or cls:
+            if cls:
+                # a tool that crashes or hangs on a well-formed trace: that IS the property; the unchanged
+                # trace goes through the tools below like every other input and is reported there
+                if not any(i.fam == "seed" and i.seed == n for i in inputs):
+                    inputs.append(inp)
+            elif res.rc != 0:
                 raise core.MachineryError("seed %s is not accepted by %s: rc=%s %s\n%s"
                                           % (n, tool[0], res.rc, cls, res.text[-1500:]))
-    inputs = []
     inputs += gen_model(ck, rng, tier, sd, lines)
     inputs += gen_sweep(ck, rng, tier, sd, lines)
     inputs += gen_trunc(ck, rng, tier, sd)
@@ -1104,8 +1112,10 @@ def main(pid, tier):
 
     items = [(ii, ti) for ii in range(len(uniq)) for ti in range(len(TOOLS))
              if (uniq[ii].tools is None or TOOLS[ti][0] in uniq[ii].tools
-                 or (TOOLS[ti][0] == "ovniemu-d" and "ovniemu" in uniq[ii].tools))
-             and (TOOLS[ti][0] != "ovniemu-d" or ii % 3 == 0)]
+                 or (TOOLS[ti][0] == "ovniemu-d" and "ovniemu" in uniq[ii].tools)
+                 or (TOOLS[ti][0] == "ovnisort-n4" and "ovnisort" in uniq[ii].tools))
+             and (TOOLS[ti][0] != "ovniemu-d" or ii % 3 == 0)
+             and (TOOLS[ti][0] != "ovnisort-n4" or ii % 2 == 0)]
     core.log("[C19] %d inputs (%d generated), %d tool runs" % (len(uniq), len(inputs), len(items)))
     rng2 = random.Random(core.seed() + 1)
     rng2.shuffle(items)            # spread the slow (hanging) runs over the workers
